@@ -1,8 +1,6 @@
 package rules
 
 import (
-	"go/ast"
-
 	"lachk/core"
 )
 
@@ -58,10 +56,18 @@ func runC03(c *core.Ctx) {
 		okG := false
 		for _, cs := range eg.Calls() {
 			if methodNamed(cs.Name, "GatherFrom") && len(cs.Call.Args) == 3 {
-				if rs, isR := enclosingLoop(eg, cs.Pos()).(*ast.RangeStmt); isR {
-					_, pth := fieldPath(eg, rs.X)
-					okG = len(pth) >= 1 && pth[len(pth)-1] == "vecengine.BranchesInfo.BranchIDByCreators" &&
-						varOf(eg, core.StripConv(eg.Info(), cs.Call.Args[0])) == varOf(eg, rs.Key) && varOf(eg, cs.Call.Args[2]) == varOf(eg, rs.Value)
+				// one call per creator index of an iteration over BranchIDByCreators (ranged or counted,
+				// the table possibly kept in a local), with the index and the element of that iteration
+				it, isIt := c01IterationOf(eg, enclosingLoop(eg, cs.Pos()))
+				if !isIt || !it.FromZero || it.Coll == nil || it.Index == nil {
+					continue
+				}
+				_, pth := fieldPath(eg, it.Coll)
+				okG = len(pth) >= 1 && pth[len(pth)-1] == "vecengine.BranchesInfo.BranchIDByCreators" &&
+					varOf(eg, core.StripConv(eg.Info(), resolveLocal(eg, cs.Call.Args[0]))) == it.Index && it.IsElem(cs.Call.Args[2], c01Resolver(eg))
+				if okG {
+					pts := []core.Point{cs.Pt}
+					okG, _ = c01EveryIteration(eg, it.Head, it.Done, pts)
 				}
 			}
 		}
